@@ -69,6 +69,8 @@ Atoms ==
    \cup {Atom("enum", e) : e \in {<<One>>, <<S(<<"a">>)>>, <<One, S(<<"a">>), Null>>, <<Arr(<<One>>)>>,
                                   <<Obj(<<"x">>, <<One>>)>>, <<N(6), Bool(TRUE)>>}}
    \cup {Atom("minimum", q) : q \in {0, 4, 6}} \cup {Atom("maximum", q) : q \in {0, 4, 6}}
+   \* an exclusive bound as ONE keyword instance (bound + flag), so that it meets every other keyword at pair level
+   \cup {Atom("xmin", q) : q \in {0, 4}} \cup {Atom("xmax", q) : q \in {4, 6}}
    \cup {Atom("multipleOf", q) : q \in {2, 3, 4, 6, 10}}       \* 0.5, 0.75, 1, and the non-integral 1.5, 2.5
    \cup {Atom("minLength", n) : n \in {1, 2}} \cup {Atom("maxLength", n) : n \in {0, 1, 2}}
    \cup {Atom("pattern", p) : p \in Patterns}
@@ -99,6 +101,8 @@ AuxSchemas == {[type |-> "integer"], [type |-> "string"], [nullable |-> TRUE], E
 (* separate, named witness: it makes the pinned code dereference a nil bound)           *)
 CanAdd(s, a) ==
    /\ ~Has(s, a.f)
+   /\ a.f = "xmin" => ~Has(s, "minimum") /\ ~Has(s, "exclusiveMinimum")
+   /\ a.f = "xmax" => ~Has(s, "maximum") /\ ~Has(s, "exclusiveMaximum")
    /\ a.f = "exclusiveMinimum" => Has(s, "minimum")
    /\ a.f = "exclusiveMaximum" => Has(s, "maximum")
    /\ a.f = "disc" => Has(s, "oneOf") /\ ~Has(s, "discmap")   \* discriminator only next to oneOf
@@ -106,7 +110,9 @@ CanAdd(s, a) ==
    /\ a.f = "apFalse" => ~Has(s, "apSchema")      \* additionalProperties is one or the other
    /\ a.f = "apSchema" => ~Has(s, "apFalse")
 
-With(s, a) == (a.f :> a.x) @@ s
+With(s, a) == CASE a.f = "xmin" -> [minimum |-> a.x, exclusiveMinimum |-> TRUE] @@ s
+                [] a.f = "xmax" -> [maximum |-> a.x, exclusiveMaximum |-> TRUE] @@ s
+                [] OTHER -> (a.f :> a.x) @@ s
 
 Wrappers(s) ==
    {[not |-> s], [allOf |-> <<s>>], [items |-> s], [apSchema |-> s], [pk |-> <<"x">>, ps |-> <<s>>]}
